@@ -2832,3 +2832,55 @@ V(id='c13-mod-pi2-bounded-escalation', prop='C13', file='mpmath/libmp/libelefun.
 V(id='c13-sqrtrem-starts-below', prop='C13', file='mpmath/libmp/libintmath.py',
   old="    y = isqrt_fast_python(x) + 1\n", new="    y = isqrt_fast_python(x)\n",
   expect='fire:E-X5:sqrtrem_python')
+
+# ---- C08 third hunt: L-R1 sees padded digit strings (fix 95687a7) ----
+V(id='c08-digits-exp-int-of-padded-string', prop='C08', file='mpmath/libmp/libmpf.py',
+  old="                N = str_to_int(digits2[:dps].ljust(dps, '0'))\n", new="                N = int(digits2[:dps].ljust(dps, '0'))\n",
+  expect='fire:L-R1:to_digits_exp')
+
+# ---- seeding round 9: A-R9, A-R10 (C11), B-R11, E-X1 ceiling (C10), F-R10 finding (C43), P-R1 unit Gaussian (C04) ----
+V(id='c11-relative-change-by-half-integers', prop='C11', file='mpmath/functions/hypergeometric.py',
+  edits=[("                ctx.prec += magz\n", "                ctx.prec += 3*magz/2\n"), ("            ctx.prec -= magz\n", "            ctx.prec -= 3*magz/2\n")],
+  expect='fire:A-R9:_hyp1f1')
+V(id='c11-benign-relative-change-floor-division', prop='C11', file='mpmath/functions/hypergeometric.py',
+  edits=[("                ctx.prec += magz\n", "                ctx.prec += 3*magz//2\n"), ("            ctx.prec -= magz\n", "            ctx.prec -= 3*magz//2\n")],
+  expect='silent')
+V(id='c11-borrowed-context-snapshot-of-own', prop='C11', file='mpmath/functions/rszeta.py',
+  old="    orig = ctx._mp.prec\n    trap = ctx._mp.trap_complex\n", new="    orig = ctx.prec\n    trap = ctx._mp.trap_complex\n",
+  expect='fire:A-R10:coef')
+V(id='c10-stieltjes-hit-unrounded', prop='C10', file='mpmath/functions/zeta.py',
+  old="            if prec >= ctx.prec:\n                return +s\n", new="            if prec >= ctx.prec:\n                return s\n",
+  expect='fire:B-R11:stieltjes')
+V(id='c10-exact-nthroot-floor-size', prop='C10', file='mpmath/libmp/libelefun.py',
+  old="    k = (bc + n - 1) // n\n", new="    k = bc // n\n",
+  expect='fire:E-X1:exact_nthroot')
+V(id='c13-exact-nthroot-floor-size', prop='C13', file='mpmath/libmp/libelefun.py',
+  old="    k = (bc + n - 1) // n\n", new="    k = bc // n\n",
+  expect='fire:E-X1:exact_nthroot')
+V(id='c43-reduce-half-by-rounded-sum', prop='C43', file='mpmath/math2.py',
+  old="    n, r = divmod(x, 0.5)\n    if r > 0.25:\n        r -= 0.5\n        n += 1\n    return n % 4, r\n", new="    n = math.floor(2.0*x + 0.5)\n    return n % 4, x - 0.5*n\n",
+  expect='fire:F-R10:_reduce_half')
+V(id='c04-unit-gaussian-power-through-log', prop='C04', file='mpmath/libmp/libmpc.py',
+  old="    if not de and abs(aman) == 1 and abs(bman) == 1:\n", new="    if False:\n",
+  expect='fire:P-R1:mpc_pow_int')
+
+# ---- hunt batch 11: R-R6 (C29), X-R13 / K-R7 (C38, C17) ----
+V(id='c29-inf-norm-drops-nan', prop='C29', file='mpmath/matrices/matrices.py',
+  old="            v = [ctx.absmax(i) for i in x]\n            # (max() drops a nan unless it comes first)\n            for t in v:\n                if t != t:\n                    return t\n            return max(v)\n",
+  new="            return max(ctx.absmax(i) for i in x)\n",
+  expect='fire:R-R6:norm')
+V(id='c29-mdnewton-nan-step-unguarded', prop='C29', file='mpmath/calculus/optimization.py',
+  old="            if any(si != si for si in s):\n", new="            if False:\n",
+  expect='fire:R-R6:MDNewton')
+V(id='c38-iv-takes-foreign-constant-by-mpf', prop='C38', file='mpmath/ctx_iv.py',
+  old="    if isinstance(x, _constant) and prec: return x.func(prec, rounding)\n", new="",
+  expect='fire:X-R13:convert_mpf_')
+V(id='c17-iv-takes-foreign-constant-by-mpf', prop='C17', file='mpmath/ctx_iv.py',
+  old="    if isinstance(x, _constant) and prec: return x.func(prec, rounding)\n", new="",
+  expect='fire:K-R7:convert_mpf_')
+V(id='c38-mpf-own-constants-only', prop='C38', file='mpmath/ctx_mp_python.py',
+  old="        if isinstance(x, _constant): return x.func(prec, rounding)\n", new="        if isinstance(x, cls.context.constant): return x.func(prec, rounding)\n",
+  expect='fire:X-R13:mpf_convert_arg')
+V(id='c10-polyval-constant-unrounded', prop='C10', file='mpmath/calculus/polynomials.py',
+  old="    if len(coeffs) == 1:\n        # (a constant polynomial: the value is the coefficient, rounded)\n        p = +p\n", new="",
+  expect='fire:B-R8p:polyval')
